@@ -20,6 +20,11 @@ func tomlMarshalStream(vs []any) ([]byte, error) {
 			buf.Write([]byte("---\n"))
 		}
 
+		if v == nil {
+			// An empty document, as in the YAML writer.
+			continue
+		}
+
 		err := enc.Encode(v)
 		if err != nil {
 			return nil, err
